@@ -262,6 +262,10 @@ class ModelInterp(MiniEval):
             if isinstance(c, ClassRef):
                 if isinstance(v, Stub) and self.a.ct.is_subclass(v._cls, c.q):
                     return True
+            elif isinstance(c, Hook) and 'q' in c.attrs:
+                # a checker-supplied constructor standing for the repo class attrs['q']
+                if isinstance(v, Stub) and self.a.ct.is_subclass(v._cls, c.attrs['q']):
+                    return True
             elif isinstance(c, type):
                 if isinstance(v, c) and not isinstance(v, (Stub, Recorder, ClassRef)):
                     return True
@@ -473,6 +477,14 @@ class ModelInterp(MiniEval):
             finally:
                 if s.finalbody:
                     self.block(s.finalbody, env)
+            return
+        if isinstance(s, ast.Import):
+            # function-level `import x`: only modules the checker supplied a stand-in for
+            for al in s.names:
+                top = al.name.split('.')[0]
+                if top not in self.globals:
+                    raise Unsupported(f'import of {al.name}')
+                env[al.asname or top] = self.globals[top]
             return
         if isinstance(s, ast.ImportFrom) and self.modstack:
             # function-level import: checker overrides first, then the project entity
